@@ -11,7 +11,7 @@ oto:  N/<pairs>  NR/<r>/<s>/<kw>  Q/<pairs>  QR/<r>/<s>/<kw>  C/<r>/<s>
 m2m:  N/<pairs>  NR/<r>/<s>  A/<r>/<s>/<k>/<v>  R/<r>/<s>/<k>/<v>  S/<r>/<s>/<k>/<vals>
       D/<r>/<s>/<k>  U/<r>/<s>/<pairs>  UR/<r>/<s>/<r2>/<s2>  P/<r>/<s>/<k>/<nk>
 fd:   B/<fpairs> first, then  Ms/<k>/<fv> Md/<k> Mi/<fpairs> Mu/<fpairs> Mf/<k>/<fv> Mp/<k> Mo Mc
-      H  E/<fpairs>  U/<fpairs>  Y  K/<keys>/<fv>          (fv = h<n> | u<n>)
+      H  E/<fpairs>  U/<fpairs>  Y  K/<keys>/<fv>          (fv = h<n> | u<n>; Y = hash, then copy/deepcopy/pickle)
 
 Output: one record per token joined by `;`.  oto/m2m record: `<ret>|<reg0>|<reg1>…`
 (ret: R- | R<v> | R<k>:<v> | X<ExceptionClass>); every register is dumped after every command.
@@ -224,7 +224,12 @@ def fdTok (s : FD) (tok : String) : Option (FD × String) :=
     (s, s!"E{if eq then 1 else 0}/H{h}|{showFItems s.items}")
   | ["U", ps] => (parseFPairs? ps).map fun ps =>
     (s, s!"T{showFItems (s.updated ps).items}|{showFItems s.items}")
-  | ["Y"] => some (s, s!"Y{showFItems s.rebuild.items}|{showFItems s.items}")
+  | ["Y"] =>
+    -- the harness calls hash(fd) first, then copies; T = the clone is content-hashed on its own items,
+    -- in this interpreter and in one where atoms hash differently
+    let s1 := s.hash.1
+    let ok := s1.cloneHashOwn id id && s1.cloneHashOwn id (fun n => 7 * n + 3)
+    some (s1, s!"Y{showFItems s1.rebuild.items}/T{if ok then 1 else 0}|{showFItems s1.items}")
   | ["K", ks, v] => match natList? ks, fval? v with
     | some ks, some v => some (s, s!"K{showFItems (FD.fromkeys ks v).items}|{showFItems s.items}")
     | _, _ => none
